@@ -349,6 +349,61 @@ def mix_arcs(g, r, p):
             a["decays"] = {adds[0]: {"constant": F(1, 20), "exponent": F(101, 100)}}
 
 
+def gen_overrides(g, r):
+    """parameter changes applied to the built model through apply_overrides before it is run (what a user does between
+    building and running, and what Model.load does with its `overrides` argument): areas, loads, river geometry,
+    treatment volume shares, demand figures, capacities.  Returns [{"node" | "arc": name, "surface": index, "values": {..}}]"""
+    out = []
+    adds, _ = g.pols()
+    for n in g.nodes:
+        cls = cls_of(n)
+        if r.random() >= 0.6:
+            continue
+        if cls == "Land":
+            for i, sf in enumerate(n["surfaces"]):
+                if sf["type_"] in ("ImperviousSurface", "PerviousSurface") and r.random() < 0.7:
+                    v = {"area": sf["area"] * r.choice([F(1, 2), F(2), F(5, 2)])}
+                    if sf.get("pollutant_load") and r.random() < 0.5:
+                        v["pollutant_load"] = {k: x * 3 for k, x in sf["pollutant_load"].items()}
+                    out.append({"node": n["name"], "surface": i, "values": v})
+        elif cls == "River":
+            k = r.choice(["length", "velocity", "damp"])
+            out.append({"node": n["name"], "values": {k: {"length": F(300), "velocity": F(8640), "damp": F(1, 5)}[k]}})
+        elif cls in ("WWTW", "FWTW"):
+            out.append({"node": n["name"], "values": r.choice([{"percent_solids": F(1, 20)}, {"liquor_multiplier": {"volume": F(1, 20)}},
+                                                               {"treatment_throughput_capacity": F(6)}])})
+        elif cls == "ResidentialDemand":
+            out.append({"node": n["name"], "values": r.choice([{"population": F(25)}, {"per_capita": F(1, 5)}, {"population": F(60), "per_capita": F(1, 10)}])})
+        elif cls == "Demand":
+            out.append({"node": n["name"], "values": {"constant_demand": F(5)}})
+        elif cls == "Reservoir":
+            out.append({"node": n["name"], "values": {"capacity": n["capacity"] * 2}})
+    for a in g.arcs:
+        if a["type_"] == "Arc" and r.random() < 0.1:
+            out.append({"arc": a["name"], "values": {"capacity": F(r.choice([3, 9]))}})
+    return out
+
+
+def effective_cfg(cfg):
+    """the configuration the overridden model stands for: constructor values with the overrides merged in (what the
+    independent oracles read)"""
+    if not cfg.get("overrides"):
+        return cfg
+    eff = copy.deepcopy(cfg)
+    nodes = {n["name"]: n for n in eff["nodes"]}
+    arcs = {a["name"]: a for a in eff["arcs"]}
+    for o in eff["overrides"]:
+        tgt = arcs[o["arc"]] if "arc" in o else nodes[o["node"]]
+        if o.get("surface") is not None:
+            tgt = tgt["surfaces"][o["surface"]]
+        for k, v in o["values"].items():
+            if isinstance(v, dict) and isinstance(tgt.get(k), dict):
+                tgt[k] = {**tgt[k], **v}
+            else:
+                tgt[k] = v
+    return eff
+
+
 def gen_model(r, ndates=4, polset=None, size=None, opts=None):
     """returns a config dict {polset, dates, nodes, arcs, orchestration?}"""
     opts = opts or {}
@@ -450,6 +505,8 @@ def gen_model(r, ndates=4, polset=None, size=None, opts=None):
     if opts.get("shuffle", True) and r.random() < 0.5:
         r.shuffle(g.nodes)
     cfg = {"polset": polset, "dates": g.dates, "nodes": g.nodes, "arcs": g.arcs, "size": size}
+    if opts.get("overrides"):
+        cfg["overrides"] = gen_overrides(g, r)
     if any(n["type_"] == "RiverReservoir" for n in g.nodes):
         from wsimod.orchestration.model import Model
         orch = [dict(x) for x in Model().orchestration]
@@ -507,6 +564,17 @@ def build(cfg, mode="exact", orchestration=None):
     m.add_nodes(nodes)
     m.add_arcs(arcs)
     m.dates = [pd.Timestamp(d) for d in cfg["dates"]]
+    for o in conv(copy.deepcopy(cfg.get("overrides") or []), mode):
+        tgt = m.arcs[o["arc"]] if "arc" in o else m.nodes[o["node"]]
+        if o.get("surface") is not None:
+            tgt = tgt.surfaces[o["surface"]]
+        try:
+            tgt.apply_overrides(dict(o["values"]))
+        except RuntimeError as ex:
+            # recorded known finding (C15 node-data-input-dict-runtimeerror): a node holding input data raises at the very
+            # end of apply_overrides, after every value has been set
+            if "data_input_dict" not in str(ex):
+                raise
     return m
 
 
